@@ -11,6 +11,9 @@ MCSetups == {
   \* DW2 [880.5 -999.5]
   [id |-> "H-real", mode |-> "H", tc |-> 0, tw |-> 0, sc |-> 1, tab |-> (1 :> <<501>> @@ 2 :> <<1201>> @@ 3 :> <<>>), dw |-> <<999>>],
   [id |-> "V-real", mode |-> "V", tc |-> 0, tw |-> 0, sc |-> 1, tab |-> (1 :> <<-1001, 601, 1401>> @@ 2 :> <<>> @@ 3 :> <<-1501, 1001, 1761>>), dw |-> <<-1999, -1, 1761>>],
+  \* an explicit default of 0: /DW 0 and /DW2 [880 0] (the descriptor's /MissingWidth is not a default of CID fonts)
+  [id |-> "H-dw0", mode |-> "H", tc |-> 0, tw |-> 0, sc |-> 1, tab |-> (1 :> <<250>> @@ 2 :> <<>> @@ 3 :> <<>>), dw |-> <<0>>],
+  [id |-> "V-dw0", mode |-> "V", tc |-> 0, tw |-> 0, sc |-> 1, tab |-> (1 :> <<-500, 300, 700>> @@ 2 :> <<>> @@ 3 :> <<>>), dw |-> <<0, -1, 880>>],
   \* text-state parameters that are usually left at their defaults: 0.5 Tc 2 Tw (fs 10: 50 / 200 thousandths), 200 Tz, 3 Ts
   [id |-> "H-ts", mode |-> "H", tc |-> 50, tw |-> 200, sc |-> 2, tab |-> (1 :> <<250>> @@ 2 :> <<600>> @@ 3 :> <<>>), dw |-> <<500>>],
   [id |-> "V-ts", mode |-> "V", tc |-> 50, tw |-> 200, sc |-> 1, tab |-> (1 :> <<-500, 300, 700>> @@ 2 :> <<>> @@ 3 :> <<-750, 500, 880>>), dw |-> <<-1000, -1, 880>>],
